@@ -52,6 +52,7 @@ class C12(Check):
     pid = "C12"
     title = "Symbolic equations and Jacobian agree with the numeric model"
     rules = {
+        "Y11": "an untranslatable component makes to_symbolic_model raise: no loop iteration completes on a path on which fn_to_sympy(..) was found to be None",
         "Y10": "(shared with C06) semantics of the function translator the symbolic model is built with: S2-S7, S9-S13 of C06",
         "Y1": "components are substituted in dependency order: a loop that defines symbols consumed by later iterations iterates the "
               "cached topological order, and reactions are made available to derived quantities as well",
@@ -66,7 +67,7 @@ class C12(Check):
               "over the dynamic table (sibling of the numeric assemblers of C01)",
         "Y8": "an untranslatable derived quantity, reaction or coefficient raises",
     }
-    floors = {"Y10": 10, "Y1": 2, "Y2": 15, "Y3": 1, "Y4": 2, "Y5": 3, "Y6": 1, "Y7": 15, "Y8": 3, "Y9": 2}
+    floors = {"Y11": 2, "Y10": 10, "Y1": 2, "Y2": 15, "Y3": 1, "Y4": 2, "Y5": 3, "Y6": 1, "Y7": 15, "Y8": 3, "Y9": 2}
     decided = [
         "conversion does not depend on the declaration order of derived quantities and reactions",
         "equations are aligned with the variables; untouched variables get a zero equation",
@@ -211,9 +212,42 @@ class C12(Check):
                               witness="the symbolic equation of a variable lacks a coefficient or has the wrong sign")
         if not {o.construct for o in self.obs if o.rule == "Y9"} >= {"static-terms", "dynamic-terms"}:
             self.violated("Y9", SYM, q, "both-tables", fn, "the symbolic equations are not assembled from both the static and the dynamic coefficient table")
+        self.y11(sym, fn)
         self.y2()
         self.y5()
         self.y7()
+
+    def y11(self, sym, fn) -> None:
+        """A component whose function does not translate makes the construction raise: no iteration completes on a path on which a
+        translation result has been found to be None."""
+        q = fn.name
+
+        class I1(SymInterp):
+            loop_unroll = 1
+
+        n = 0
+        for lp in [l for l in walk_no_nested(fn) if isinstance(l, ast.For)]:
+            if not any(isinstance(c, ast.Call) and norm(c.func).split(".")[-1] == "fn_to_sympy" for c in ast.walk(lp)):
+                continue
+            inner = [l2 for l2 in ast.walk(lp) if isinstance(l2, ast.For) and l2 is not lp and any(isinstance(c, ast.Call) and norm(c.func).split(".")[-1] == "fn_to_sympy" for c in ast.walk(l2))]
+            target = inner[0] if inner else lp
+            o = I1().block(target.body, [Sym()])
+            n += 1
+            slipped = None
+            refused = 0
+            for st in list(o.normal) + list(o.continues):
+                for c, v in st.conds:
+                    if "fn_to_sympy(" in c and c.rstrip().endswith("is None") and v:
+                        slipped = c
+            refused = len(getattr(o, "raises", []))
+            cons = f"untranslatable-refused@{getattr(target, '_orig_lineno', target.lineno)}"
+            if slipped is not None:
+                self.violated("Y11", SYM, q, cons, target, "an iteration completes although the translation of its function came back None: the component enters the symbolic model as None / is left out, "
+                              "and equations and Jacobian are built without it", witness="a rate law with a `for` loop: to_symbolic_model returns equations in which that rate is missing instead of raising")
+            else:
+                self.holds("Y11", SYM, q, cons, target, "every path on which a translation is None leaves by raising")
+        if n == 0:
+            self.undecided_ob("Y11", SYM, q, "untranslatable-refused", fn, "no loop translating component functions found")
 
     def y2(self) -> None:
         src = self.prog.module(SRC).func("fn_to_sympy")
